@@ -162,8 +162,9 @@ def _run(prop, reg, tier, seed, work, known, t0, replay):
     legs = reg["legs_fn"](tier) if "legs_fn" in reg else reg["legs"]
     if tier == "thorough" or (replay and str(replay.get("leg", "")).startswith("tcp-")):      # TCP legs (real transport stack against harness/tctcp), see vlib/tcp_legs.py
         try:
-            from .tcp_legs import TCP_LEGS
+            from .tcp_legs import TCP_LEGS, TCP_TB
             legs = list(legs) + TCP_LEGS.get(prop, [])
+            reg = dict(reg, trusted_base=list(reg.get("trusted_base", [])) + (TCP_TB if prop in TCP_LEGS else []))
         except ImportError:
             pass
     for lspec in legs:
